@@ -6,6 +6,7 @@ import re
 import vlib
 import core_gen
 import runner
+import c18small
 from framework import LineCheck
 
 CORE_VO = ["theories/Core/Kernel.vo", "theories/Core/CoreTypes.vo", "theories/Core/CoreFd.vo",
@@ -389,10 +390,43 @@ class C18(CoreCheck):
             "iv_deinit); non-trivial = the run reached tear-down (D event); distinct = distinct scenario text.  Plus thread churn on the real "
             "kernel (harness/churn.c, ASan/LSan): three batches of short-lived threads per poll method, each initialising a loop, using one "
             "object of every kind (+ work pool with workers / iv_thread child), ending by iv_deinit, by plain return (TLS destructor) or "
-            "by pthread_exit; open descriptors must equal the baseline after every batch and live heap bytes must not grow from batch 2 to 3")
+            "by pthread_exit; open descriptors must equal the baseline after every batch and live heap bytes must not grow from batch 2 to 3.  "
+            "Plus the two small pieces under every other model (lib/c18small.py): " + c18small.RULE)
+    corr_name = (CoreCheck.corr_name + "; TLS stage: tls_drv(real iv_tls.c through iv_init/iv_deinit, library users included) = extracted "
+                 "TlsModel (every state_offset, total size, init/deinit hook order and areas, aborts); LIST stage: list_drv(real iv_list.h, "
+                 "__iv_list_steal_elements) = extracted ListPtrModel (next/prev of every node after every operation)")
+    trusted_extra = c18small.TRUSTED
+
+    @property
+    def coq_targets(self):
+        return CORE_VO + self.coq_extra + c18small.VO
+
+    def pre_proof(self, ctx):
+        """tie (a) for iv_tls.c: regenerate Gen/LeafTls.v (and the other generated files) from the current C source"""
+        import importlib.util
+        spec = importlib.util.spec_from_file_location("c2gallina", os.path.join(vlib.VERIF, "gen", "c2gallina.py"))
+        mod = importlib.util.module_from_spec(spec)
+        spec.loader.exec_module(mod)
+        with vlib.Lock(os.path.join(vlib.COQ, ".lock")):
+            err = mod.main()
+        if err:
+            return "leaf translator failed (Gen/LeafTls.v not regenerated, tie broken): " + err
+        err = getattr(mod, "LAST_ERRORS", {}).get("LeafTls.v")
+        return ("iv_tls.c translator failed (tie broken): " + err) if err else None
+
+    @staticmethod
+    def kind(case):
+        if case.startswith("CHURN "):
+            return "CHURN"
+        return c18small.kind(case) or "scen"
 
     def nontrivial(self, case, mo):
-        return case.startswith("CHURN ") or " | D open=" in (mo or "")
+        k = self.kind(case)
+        if k == "CHURN":
+            return True
+        if k in ("TLS", "LIST"):
+            return c18small.nontrivial(case)
+        return " | D open=" in (mo or "")
 
     # ---- thread churn on the real kernel (harness/churn.c): the clause "or a thread that used the library exits ...
     # repeated init/use/deinit cycles and thread churn do not grow the process" cannot be exercised by the sequential
@@ -400,11 +434,20 @@ class C18(CoreCheck):
     CHURN_METHODS = ["", "epoll-timerfd", "epoll-timerfd epoll", "epoll-timerfd epoll ppoll"]
 
     def build(self, ctx):
-        ok, out = CoreCheck.build(self, ctx)
+        from concurrent.futures import ThreadPoolExecutor
+        self.small_d = os.path.join(ctx.work, "small")
+        with ThreadPoolExecutor(max_workers=2) as ex:
+            fs = ex.submit(c18small.build, self.small_d)
+            ok, out = CoreCheck.build(self, ctx)
+            if ok:
+                ok, out2 = vlib.cc_build(self.d, "churn", ["churn.c"], vlib.LIB_SRCS)
+                out += out2
+            oks, outs, self.tls_probe = fs.result()
         if not ok:
             return ok, out
-        ok, out2 = vlib.cc_build(self.d, "churn", ["churn.c"], vlib.LIB_SRCS)
-        return ok, out + out2
+        if not oks:
+            return False, out + "\nTLS / LIST stage (lib/c18small.py):\n" + outs
+        return True, out + outs
 
     def run_churn(self, case):
         """case = 'CHURN <method index> <seed> <threads per batch>'; returns None or the reason it fails"""
@@ -434,52 +477,105 @@ class C18(CoreCheck):
 
     def cases(self, ctx):
         cases = CoreCheck.cases(self, ctx)
-        reps = 2 if ctx.tier == "quick" else 12
+        # the two small pieces: iv_tls.c and iv_list.h (pseudo-cases TLS ... / LIST ..., see lib/c18small.py)
+        rng = vlib.rng_for(ctx.seed, "C18small")
+        quick = ctx.tier == "quick"
+        cases += c18small.gen_tls(rng, self.tls_probe, 150 if quick else 2500)
+        cases += c18small.gen_list(rng, 400 if quick else 8000)
+        reps = 2 if quick else 12
         self.n_churn = 0
         for mi in range(len(self.CHURN_METHODS)):
             for r in range(reps):
-                cases.append("CHURN %d %d %d" % (mi, ctx.seed * 100 + r, 24 if ctx.tier == "quick" else 60))
+                cases.append("CHURN %d %d %d" % (mi, ctx.seed * 100 + r, 24 if quick else 60))
                 self.n_churn += 1
         return cases
 
     def correspond(self, ctx, cases):
         from concurrent.futures import ThreadPoolExecutor
-        scen = [c for c in cases if not c.startswith("CHURN ")]
-        churn = [c for c in cases if c.startswith("CHURN ")]
-        st = CoreCheck.correspond(self, ctx, scen)
-        if scen and churn and cases[:len(scen)] != scen:
-            raise RuntimeError("churn cases must come last")
+        kinds = [self.kind(c) for c in cases]
+        at = {k: [i for i, kk in enumerate(kinds) if kk == k] for k in ("scen", "CHURN", "TLS", "LIST")}
+        n = len(cases)
+        st = {"n": n, "div": [], "crashes": [], "monfail": [], "nontrivial": 0, "mres": [("", None)] * n,
+              "ires": [("", None)] * n, "mon": ["OK"] * n, "monfail_other_properties": 0}
+        # scenarios: model vs ivsim + monitors
+        if at["scen"]:
+            s0 = CoreCheck.correspond(self, ctx, [cases[i] for i in at["scen"]])
+            for key in ("div", "crashes", "monfail"):
+                st[key] += [(at["scen"][j], why) for j, why in s0[key]]
+            for j, i in enumerate(at["scen"]):
+                st["mres"][i] = s0["mres"][j]
+                st["ires"][i] = s0["ires"][j]
+                if s0["mon"] is not None:
+                    st["mon"][i] = s0["mon"][j]
+            st["nontrivial"] += s0["nontrivial"]
+            st["monfail_other_properties"] = s0.get("monfail_other_properties", 0)
+        # iv_tls.c / iv_list.h: extracted model vs harness on the real code
+        small = at["TLS"] + at["LIST"]
+        if small:
+            res = c18small.correspond(self.small_d, [cases[i] for i in small], timeout=self.timeout(ctx))
+            seen = set()
+            for i, (mo, io, div, crash) in zip(small, res):
+                st["mres"][i] = (mo, None)
+                st["ires"][i] = (io, None)
+                if crash:
+                    st["crashes"].append((i, crash))
+                elif div:
+                    st["div"].append((i, div))
+                if self.nontrivial(cases[i], mo) and cases[i] not in seen:
+                    seen.add(cases[i])
+                    st["nontrivial"] += 1
+        # thread churn
         self.churn_methods = getattr(self, "churn_methods", set())
-        with ThreadPoolExecutor(max_workers=4) as ex:
-            res = list(ex.map(self.run_churn, churn))
-        for k, why in enumerate(res):
-            idx = len(scen) + k
-            st["mres"].append(("", None))
-            st["ires"].append(("", None))
-            if st["mon"] is not None:
-                st["mon"].append("OK")
-            if why:
-                st["crashes"].append((idx, why))
-            else:
-                st["nontrivial"] += 1
-        st["n"] += len(churn)
+        if at["CHURN"]:
+            with ThreadPoolExecutor(max_workers=4) as ex:
+                res = list(ex.map(self.run_churn, [cases[i] for i in at["CHURN"]]))
+            for i, why in zip(at["CHURN"], res):
+                if why:
+                    st["crashes"].append((i, why))
+                else:
+                    st["nontrivial"] += 1
+        for key in ("div", "crashes", "monfail"):
+            st[key].sort(key=lambda x: x[0])
         return st
 
+    def _small_fails(self, ctx, case):
+        st = self.correspond(ctx, [case])
+        return bool(st["crashes"])
+
     def shrink(self, ctx, case):
-        return case if case.startswith("CHURN ") else CoreCheck.shrink(self, ctx, case)
+        k = self.kind(case)
+        if k == "CHURN":
+            return case
+        if k == "TLS":
+            return c18small.shrink_tls(case, lambda c: self._small_fails(ctx, c))
+        if k == "LIST":
+            return c18small.shrink_list(case, lambda c: self._small_fails(ctx, c))
+        return CoreCheck.shrink(self, ctx, case)
+
+    def widen(self, ctx, case):
+        return [] if self.kind(case) != "scen" else CoreCheck.widen(self, ctx, case)
 
     def describe(self, case):
-        if case.startswith("CHURN "):
+        k = self.kind(case)
+        if k == "CHURN":
             return {"thread_churn": case, "excluded_poll_methods": self.CHURN_METHODS[int(case.split()[1])]}
+        if k in ("TLS", "LIST"):
+            return c18small.describe(case)
         return CoreCheck.describe(self, case)
 
     def signature(self, case, why):
-        return "churn" if case.startswith("CHURN ") else CoreCheck.signature(self, case, why)
+        k = self.kind(case)
+        if k == "CHURN":
+            return "churn"
+        if k in ("TLS", "LIST"):
+            return "small:" + k.lower()
+        return CoreCheck.signature(self, case, why)
 
     def distribution(self, cases):
-        d = CoreCheck.distribution(self, [c for c in cases if not c.startswith("CHURN ")])
+        d = CoreCheck.distribution(self, [c for c in cases if self.kind(c) == "scen"])
         d["thread_churn_runs"] = sum(1 for c in cases if c.startswith("CHURN "))
         d["thread_churn_methods"] = sorted(getattr(self, "churn_methods", []))
+        d.update(c18small.distribution(cases))
         return d
 
 
